@@ -236,6 +236,7 @@ class PseudotrajCheck(Check):
             rows = self._gen_rows(rng, tier)
             return {"kind": "ptwriter", "mol1": mol1, "mol2": mol2, "tasks": [rows], "cell": rng.choice([30.0, 250.0]),
                     "out": rng.choice(["memory", "xtc", "xyzdir"]), "rng_init": rng.randrange(2 ** 32),
+                    "structure_first": rng.choice([None, None, 5.0, 12.5]),
                     "ops": [{"op": "fault", "fault": RngSeam.generate(rng)}] if rng.random() < 0.3 else []}
         n_tasks = rng.choice([1, 2, 2, 3])
         tasks = [self._gen_rows(rng, tier) for _ in range(n_tasks)]
@@ -294,6 +295,11 @@ class PseudotrajCheck(Check):
                     faults[op["fault"]["kind"]] = faults.get(op["fault"]["kind"], 0) + 1
             with lib_call("PtWriter(...)"):
                 w = PtWriter(p1, p2, cell_size_A=sc["cell"], path_grid=gpath)
+            if sc.get("structure_first"):
+                # the other public output of the writer, asked for before the pseudotrajectory
+                with lib_call("PtWriter.write_structure"):
+                    w.write_structure(sc["structure_first"], os.path.join(d, "start_structure.gro"))
+                probes["write_structure_before_pt"] = 1
             exp = [np.vstack([ref1, place(ref2, m2, r[3:], r[:3])]) for r in rows]
 
             def judge(pos, k, tol, what):
@@ -345,7 +351,8 @@ class PseudotrajCheck(Check):
         sig = ["ptwriter", sc["out"], sc["mol1"].get("kind", sc["mol1"].get("file")),
                sc["mol2"].get("kind", sc["mol2"].get("file")), min(len(rows), 8)]
         return {"events": log.n + checked, "fingerprint": log.digest(), "faults": faults, "probes": probes,
-                "sig": repr(sig), "nontrivial": checked >= 2 and sc["out"] != "memory", "inter": repr(sig[:2])}
+                "sig": repr(sig), "nontrivial": checked >= 2 and (sc["out"] != "memory" or bool(sc.get("structure_first"))),
+                "inter": repr(sig[:2])}
 
     def execute(self, sc):
         if sc.get("kind") == "ptwriter":
@@ -416,6 +423,7 @@ class PseudotrajCheck(Check):
                 return {"pt": pt, "gen": None, "next": 0, "done": False, "drained": False}
 
             tasks = [new_task(i) for i in range(len(arrays))]
+            held = []
 
             def step(ti):
                 st = tasks[ti]
@@ -438,6 +446,8 @@ class PseudotrajCheck(Check):
                     raise Violation("frame-index", f"task {ti}: generator yielded index {idx}, expected {st['next']}")
                 check_frame(ti, st["next"], uni.atoms.positions, uni.atoms.names, uni.atoms.types,
                             f"task {ti} frame {st['next']}")
+                if len(held) < 8 and (st["next"] % 3 == 0):
+                    held.append((ti, st["next"], uni))  # a consumer that keeps the frames it was given
                 log.add(f"pt{ti}", "frame", st["next"], digest_array(np.asarray(uni.atoms.positions)))
                 st["next"] += 1
 
@@ -526,6 +536,11 @@ class PseudotrajCheck(Check):
                 while st["gen"] is not None and not st["done"] and not st["drained"] and guard < 400:
                     step(ti)
                     guard += 1
+            # frames handed out earlier are still those frames (collecting list(generator) is ordinary use)
+            for ti, k, uni in held:
+                check_frame(ti, k, uni.atoms.positions, None, None, f"task {ti} frame {k} looked at again later")
+            if held:
+                probes["kept_frames_rechecked"] = len(held)
             # sources untouched by the library?  (the tasks above shared them)
             if np.abs(np.array(u2.atoms.positions, dtype=float) - ref2).max(initial=0) > 1e-4 or \
                     np.abs(np.array(u1.atoms.positions, dtype=float) - ref1).max(initial=0) > 1e-4:
@@ -752,6 +767,9 @@ class AssignmentCheck(Check):
         rmax = radii[-1] + (radii[-1] - radii[-2]) / 2
         mode = rng.choice(["walk", "walk", "iid", "mixed"])
         n = rng.choice([20, 60, 150, rng.randint(20, 400 if tier == "quick" else 600), rng.choice([1, 2, 3, 5])])
+        if rng.random() < 0.006:
+            n = rng.randint(10050, 12000)  # production length: block-wise / chunked code paths only show here
+            mode = "iid"
         frames = []
         q = random_unit_quaternion(rng)
         p = [rng.uniform(-1, 1) * radii[0] for _ in range(3)]
